@@ -7,11 +7,18 @@ Exit-code policy (see DESIGN.md 2.4): 0 = property held on everything explored,
 import json, os, re, subprocess, sys, time, shutil, hashlib, glob
 
 V = '/verif'
-REPO = '/repo'
+# The registered checks always run against /repo.  For mutation experiments (a scratch copy of the repository with a seeded
+# change) VERIF_REPO points the build at the copy; build output, traces and evidence then go under VERIF_SCRATCH so the
+# real build tree and the committed evidence are left alone.
+REPO = os.environ.get('VERIF_REPO', '/repo')
+_SCR = os.environ.get('VERIF_SCRATCH') or (None if REPO == '/repo' else '/tmp/verif_scratch_' + hashlib.md5(REPO.encode()).hexdigest()[:8])
 SPEC = f'{V}/spec'
 HARNESS = f'{V}/harness'
-BUILD = f'{V}/.build'
-OUT = f'{V}/out'
+BUILD = f'{_SCR}/build' if _SCR else f'{V}/.build'
+OUT = f'{_SCR}/out' if _SCR else f'{V}/out'
+EVID = f'{_SCR}/evidence' if _SCR else f'{V}/evidence'
+os.environ['VERIF_REPO'] = REPO
+os.environ['VERIF_BUILD'] = BUILD
 TLA_CP = '/opt/veriftools/tla/tla2tools.jar:/opt/veriftools/tla/CommunityModules-deps.jar'
 
 
@@ -190,8 +197,8 @@ class Ctx:
             'coverage': cov, 'assumptions': self.assumptions,
             'wall_s': round(time.time() - self.t0, 1), 'violations': len(self.violations),
         }
-        os.makedirs(f'{V}/evidence', exist_ok=True)
-        with open(f'{V}/evidence/{self.pid}.json', 'w') as f:
+        os.makedirs(EVID, exist_ok=True)
+        with open(f'{EVID}/{self.pid}.json', 'w') as f:
             json.dump(ev, f, indent=1, default=str)
         if self.violations:
             return 1
